@@ -51,6 +51,8 @@ def assigned_names(stmts):
         for nd in ast.walk(s):
             if isinstance(nd, ast.Name) and isinstance(nd.ctx, ast.Store):
                 out.add(nd.id)
+            if isinstance(nd, ast.Subscript) and isinstance(nd.ctx, ast.Store) and isinstance(nd.value, ast.Name):
+                out.add(nd.value.id)        # d[k] = v modifies d
             if isinstance(nd, ast.Call) and isinstance(nd.func, ast.Attribute) and nd.func.attr == 'append' \
                     and isinstance(nd.func.value, ast.Name):
                 out.add(nd.func.value.id)
@@ -603,6 +605,9 @@ class Executor:
         for name, f in inv.invariant(cx, lp):
             sh.assume(f)
         sh.trace.append('loop%d' % ordinal)
+        self.obligations.append(Obligation(self.target, 'loop_head_reachable_after_the_first_iteration#%d' % ordinal,
+                                           sh.facts + [k >= 1], z3.BoolVal(False), sh.versions, kind='cover',
+                                           path=self.pathname(sh), expect='not-unsat-strong'))
         cur = seq.elem(k)
         lp.cur = cur
         sh.locals['$k%d' % ordinal] = SInt(k)      # index of the iteration, visible to the invariants of nested loops
@@ -678,6 +683,10 @@ class Executor:
             r.fun = f
             r.elemkind = 'node'
             return r
+        if kind == 'nodedict':
+            return SDict(sym=(self.W.fresh(name + '_keys', z3.ArraySort(Node, L.B)),
+                              self.W.fresh(name + '_vals', z3.ArraySort(Node, L.R)),
+                              self.W.fresh(name + '_none', z3.ArraySort(Node, L.B))))
         if kind == 'strlist':
             f = self.W.fresh_fun(name + '_elem', L.I, Str)
             n = self.W.fresh(name + '_len', L.I)
